@@ -255,8 +255,8 @@ func checkC01(c *Case, st *Stats) string {
 		docText += fmt.Sprintf(" (shared subtrees, seed %d)", c.Ints[0])
 		st.Class("doc:shared-subtree")
 	}
-	if c.Doc != nil && c.Doc.Depth() >= 20 {
-		st.Class("doc:deep(>=20 levels)")
+	if c.Doc != nil && c.Doc.Depth() >= 14 {
+		st.Class("doc:deep(>=14 levels)")
 	}
 	Journal(c.Check, c.Path, docText, flagString(c))
 	if len(c.Strs) > 0 {
